@@ -294,8 +294,14 @@ func (s *engSession) checkTrav(i int) {
 	case "C08":
 		s.coq = append(s.coq, fmt.Sprintf("ECheckKept %s %d %s", key, hashPromise(7, t.Kept), Bool(t.MidTrip())))
 		s.coq = append(s.coq, fmt.Sprintf("ECheckBook %s %d", key, hashBook(7, t.Promises.VerifEntries())))
-	case "C10":
+	case "C10", "C09":
 		s.coq = append(s.coq, fmt.Sprintf("ECheckBook %s %d", key, hashBook(7, t.Promises.VerifEntries())))
+	case "C05":
+		th := t.VerifTripHistory()
+		s.coq = append(s.coq, fmt.Sprintf("ECheckHist %s %d %s", key, hashHist(th.VerifEntries(), th.VerifOldestChange()), Bool(midTripOf(&t))))
+	case "C07":
+		th := t.VerifTripHistory()
+		s.coq = append(s.coq, fmt.Sprintf("ECheckFlights %s %d", key, hashHistNoEt(th.VerifEntries())))
 	}
 }
 
@@ -566,7 +572,7 @@ func (s *engSession) update(now uint64) (int64, flap.UpdateBackfillStats) {
 	}
 	mask := 127
 	switch s.proj {
-	case "C01", "C02", "C08", "C10":
+	case "C01", "C02", "C08", "C10", "C05", "C07", "C09":
 		mask = 0
 	case "C03":
 		mask = 1 | 16
@@ -624,6 +630,7 @@ func (s *engSession) update(now uint64) (int64, flap.UpdateBackfillStats) {
 				continue
 			}
 			b := befores[i].t
+			s.tripMonitors(i, &b, &after, now, p)
 			added := s.ledgerMonitor(i, b, true, after, "daily update")
 			// who must be credited: not mid-trip once the trip rules are applied, and negative balance.
 			// "once the trip rules are applied" = MidTrip of the record after the update, unless the trip was closed
@@ -777,6 +784,16 @@ func (s *engSession) propose(i int, fs []flap.VerifFlight, tripEnd, now uint64) 
 		slot = len(s.props) - 1
 		h = hashProposal(out.pp)
 	}
+	if code == 0 {
+		// C09: the proposal is a consistent book that preserves the promises already made
+		var stored flap.Promises
+		if tb, ok := s.get(i); ok {
+			stored = tb.Promises
+		}
+		bookMonitor(stored.VerifEntries(), out.pp.VerifEntries(), now, int8(s.eng.Administrator.GetParams().Promises.MaxStackSize), func(sig, what string) {
+			s.fail("C09", sig, what)
+		})
+	}
 	s.coq = append(s.coq, fmt.Sprintf("EPropose %s %s %d %d %d %d%%nat %d", s.trav[i].key, coqFlights(fs), tripEnd, now, code, max0(slot), h))
 	s.ops = append(s.ops, eOp{"op": "propose", "t": i, "fs": fs, "tripEnd": tripEnd, "now": now, "res": code, "slot": slot})
 	s.stat["proposals"]++
@@ -852,4 +869,34 @@ const engRequires = "From Coq Require Import ZArith List.\nFrom Flap Require Imp
 
 func engFlush(o *Out, prefix string) {
 	o.FlushCases(prefix, engRequires, "list (list eop)", "e_mismatches 0%nat", 16)
+}
+
+// tripMonitors: C05 and C07 stated on the stored record of one traveller before and after a daily update
+func (s *engSession) tripMonitors(i int, before, after *flap.Traveller, now uint64, p flap.FlapParams) {
+	bh, ah := before.VerifTripHistory(), after.VerifTripHistory()
+	be, ae := bh.VerifEntries(), ah.VerifEntries()
+	for k := range ae {
+		if !dataEq(be[k], ae[k]) {
+			s.fail("C07", "update-altered-flight-data", fmt.Sprintf("daily update changed entry %d of traveller %d from %+v to %+v", k, i, be[k], ae[k]))
+			break
+		}
+		if be[k].Et == 3 && ae[k].Et != 3 {
+			s.fail("C07", "update-changed-traveller-trip-end", fmt.Sprintf("daily update changed the traveller's trip-end marker at entry %d to %d", k, ae[k].Et))
+			break
+		}
+	}
+	if midTripOf(after) && ae[0].Start != 0 {
+		st, n := openTrip(ae)
+		db := int64(flap.VerifDaysBetween(st, flap.EpochTime(now)))
+		if db > int64(p.TripLength) {
+			s.fail("C05", "mid-trip-beyond-trip-length", fmt.Sprintf("after the daily update at %d traveller %d is still mid-trip: open trip started %d whole days ago, TripLength %d", now, i, db, p.TripLength))
+		}
+		if uint64(n) >= p.FlightsInTrip {
+			s.fail("C05", "mid-trip-with-max-flights", fmt.Sprintf("after the daily update at %d traveller %d is still mid-trip with %d flights in the open trip, FlightsInTrip %d", now, i, n, p.FlightsInTrip))
+		}
+		s.stat["c05_midtrip_after_update"]++
+	}
+	if midTripOf(before) && !midTripOf(after) {
+		s.stat["c05_trips_closed_by_update"]++
+	}
 }
